@@ -187,16 +187,39 @@ func scenarios(thorough bool) []*scenario {
 			repo := baseRepo(w, nil)
 			gitx.WriteFile(repo, "a.bin", A, 0644)
 			gitx.WriteFile(repo, "b.bin", B, 0644)
+			gitx.WriteFile(repo, "c.bin", C, 0644)
+			gitx.WriteFile(repo, "d.bin", mkContent(4), 0644)
 			w.MustGit(repo, "add", "-A")
 			w.MustGit(repo, "commit", "-qm", "objs")
-			// corrupt B in place
-			p := gitx.ObjectPath(filepath.Join(repo, ".git", "lfs"), gitx.Oid(B))
-			os.Chmod(p, 0644)
-			bad := append([]byte{}, B...)
-			bad[100] ^= 0xff
-			os.WriteFile(p, bad, 0644)
+			// corrupt three of the four objects in place (a kill between two repairs must not stop the re-run)
+			for _, d := range [][]byte{B, C, mkContent(4)} {
+				p := gitx.ObjectPath(filepath.Join(repo, ".git", "lfs"), gitx.Oid(d))
+				os.Chmod(p, 0644)
+				bad := append([]byte{}, d...)
+				bad[100] ^= 0xff
+				os.WriteFile(p, bad, 0644)
+			}
 		}, cmd: func(w *gitx.World, env []string) gitx.Res {
 			return w.RunIn(repoOf(w), nil, env, filepath.Join(w.BinDir, "git-lfs"), "fsck")
+		}},
+		{name: "smudge-from-reference-store", build: func(w *gitx.World, srv *fakelfs.Server) {
+			// the object lives in the LFS store of an alternate (reference) repository on ANOTHER filesystem, so the
+			// hard link fails and git-lfs falls back to copying it into the local store
+			repo := baseRepo(w, nil)
+			ref := refStoreDir()
+			gitx.PutObject(filepath.Join(ref, "lfs"), A)
+			os.MkdirAll(filepath.Join(ref, "objects"), 0755)
+			os.MkdirAll(filepath.Join(repo, ".git", "objects", "info"), 0755)
+			os.WriteFile(filepath.Join(repo, ".git", "objects", "info", "alternates"), []byte(filepath.Join(ref, "objects")+"\n"), 0644)
+			gitx.WriteFile(w.Root, "pointer.txt", []byte(gitx.PointerText(A)), 0644)
+		}, cmd: func(w *gitx.World, env []string) gitx.Res {
+			p, _ := os.ReadFile(filepath.Join(w.Root, "pointer.txt"))
+			r := w.RunIn(repoOf(w), p, env, filepath.Join(w.BinDir, "git-lfs"), "smudge", "a.bin")
+			if r.Code == 0 && gitx.Oid([]byte(r.Out)) != gitx.Oid(A) {
+				r.Code = 97
+			}
+			r.Out = ""
+			return r
 		}},
 		{name: "prune", build: func(w *gitx.World, srv *fakelfs.Server) {
 			repo := baseRepo(w, nil)
@@ -245,6 +268,23 @@ func scenarios(thorough bool) []*scenario {
 		)
 	}
 	return s
+}
+
+var (
+	refOnce sync.Once
+	refDir  string
+)
+
+// refStoreDir returns a directory on a filesystem other than the scratch area (tmpfs /dev/shm), removed at exit.
+func refStoreDir() string {
+	refOnce.Do(func() {
+		d, err := os.MkdirTemp("/dev/shm", "verif-c09-ref")
+		if err != nil {
+			d, _ = os.MkdirTemp(scratch, "ref") // same filesystem: the link succeeds and the scenario degenerates (counted)
+		}
+		refDir = d
+	})
+	return refDir
 }
 
 func newCopy(sc *scenario) *gitx.World {
@@ -364,7 +404,7 @@ func TestVerifC09(t *testing.T) {
 	osxBin = os.Getenv("VERIF_GITLFS_OSX")
 	gitx.CmdTimeout = 120 * time.Second
 	scs := scenarios(true)
-	nq := 7
+	nq := 8
 	if !c.Thorough() {
 		scs = scs[:nq]
 	}
@@ -490,6 +530,9 @@ func TestVerifC09(t *testing.T) {
 		if sc.srv != nil {
 			sc.srv.Close()
 		}
+	}
+	if refDir != "" {
+		os.RemoveAll(refDir)
 	}
 	os.Exit(code)
 }
